@@ -47,6 +47,17 @@ static bool errno_ok(int got, const DResult &r)
     return got == r.err || (r.err_alt && got == r.err_alt);
 }
 
+// no-retry mode: a modifying call that failed because of its injected allocation failure is not re-issued.  What
+// the tree holds then is not prescribed (only that repeating the call would repair it): the model is re-read from
+// the real tree, which walks every node through the public getters, and the history goes on from there.
+#define NO_RETRY_FAILED(FN, FAILEDEXPR) \
+    if (c.no_retry && sim_alloc_fault_fired() && (FAILEDEXPR)) { \
+	if (e_ != ENOMEM) { c.violate("c12", std::string(FN) + ":errno", strf("%s failed under an injected allocation failure with errno %s", FN, errno_name(e_))); return; } \
+	c.count("probe.failed_by_fault_not_reissued"); \
+	resync_root(w, ri); \
+	compare_root(w, ri, op, "re-read after a call that failed for lack of memory"); \
+	return; \
+    }
 static void run_op(DocWorld &w, const Op &op)
 {
     Ctx &c = w.c;
@@ -80,6 +91,7 @@ static void run_op(DocWorld &w, const Op &op)
 	    LIB_RETRY(c, &op, "vnaproperty_set", e_, rc != 0, rc = ds.as_format ? vnaproperty_set(rootp, full.c_str()) : vnaproperty_set(rootp, "%s", full.c_str()));
 	    c.log(" -> %d errno=%s", rc, rc ? errno_name(e_) : "-");
 	    if (c.violated) return;
+	    NO_RETRY_FAILED("vnaproperty_set", rc != 0)
 	    if (valid) {
 		if (rc != 0) { c.violate("model", "set:rc", strf("valid set %s failed, errno %s", Json(full).str().c_str(), errno_name(e_))); return; }
 	    } else {
@@ -105,6 +117,7 @@ static void run_op(DocWorld &w, const Op &op)
 	    LIB_RETRY(c, &op, "vnaproperty_set_subtree", e_, anchor == nullptr, anchor = ds.as_format ? vnaproperty_set_subtree(rootp, full.c_str()) : vnaproperty_set_subtree(rootp, "%s", full.c_str()));
 	    c.log(" -> %s errno=%s", anchor ? "anchor" : "NULL", anchor ? "-" : errno_name(e_));
 	    if (c.violated) return;
+	    NO_RETRY_FAILED("vnaproperty_set_subtree", anchor == nullptr)
 	    if (valid && !anchor) { c.violate("model", "setsub:rc", strf("set_subtree %s failed, errno %s", Json(full).str().c_str(), errno_name(e_))); return; }
 	    if (!valid) {
 		if (anchor) { c.violate("model", "setsub:rc", strf("set_subtree with trailing tokens %s succeeded", Json(full).str().c_str())); return; }
@@ -148,6 +161,7 @@ static void run_op(DocWorld &w, const Op &op)
 	    LIB_RETRY(c, &op, "vnaproperty_delete", e_, rc != 0, rc = ds.as_format ? vnaproperty_delete(rootp, full.c_str()) : vnaproperty_delete(rootp, "%s", full.c_str()));
 	    c.log(" -> %d errno=%s", rc, rc ? errno_name(e_) : "-");
 	    if (c.violated) return;
+	    NO_RETRY_FAILED("vnaproperty_delete", rc != 0)
 	    if (!want_err && rc != 0) { c.violate("model", "del:rc", strf("delete %s failed (errno %s), model expects success", Json(full).str().c_str(), errno_name(e_))); return; }
 	    if (want_err) {
 		if (rc != -1) { c.violate("model", "del:rc", strf("delete %s returned %d, model expects failure %s", Json(full).str().c_str(), rc, errno_name(want_err))); return; }
@@ -172,6 +186,7 @@ static void run_op(DocWorld &w, const Op &op)
 	    const char *v = nullptr;
 	    std::string got;
 	    LIB_RETRY(c, &op, "vnaproperty_get", e_, v == nullptr, v = ds.as_format ? vnaproperty_get(root, full.c_str()) : vnaproperty_get(root, "%s", full.c_str()); got = v ? v : "");
+	    if (c.no_retry && sim_alloc_fault_fired() && (v == nullptr) && e_ == ENOMEM) { c.count("probe.failed_by_fault_not_reissued"); return; }	// (a query that failed for lack of memory changed nothing)
 	    c.log(" -> %s", v ? Json(got).str().c_str() : "NULL");
 	    if (c.violated) return;
 	    if (n && n->k == 1) {
@@ -184,6 +199,7 @@ static void run_op(DocWorld &w, const Op &op)
 	} else if (op.k == "type") {
 	    int t = -1;
 	    LIB_RETRY(c, &op, "vnaproperty_type", e_, t == -1, t = ds.as_format ? vnaproperty_type(root, full.c_str()) : vnaproperty_type(root, "%s", full.c_str()));
+	    if (c.no_retry && sim_alloc_fault_fired() && (t == -1) && e_ == ENOMEM) { c.count("probe.failed_by_fault_not_reissued"); return; }	// (a query that failed for lack of memory changed nothing)
 	    c.log(" -> %d", t);
 	    if (c.violated) return;
 	    int want = !n ? -1 : n->k == 1 ? 's' : n->k == 2 ? 'm' : n->k == 3 ? 'l' : -1;
@@ -192,6 +208,7 @@ static void run_op(DocWorld &w, const Op &op)
 	} else if (op.k == "count") {
 	    int t = -1;
 	    LIB_RETRY(c, &op, "vnaproperty_count", e_, t == -1, t = ds.as_format ? vnaproperty_count(root, full.c_str()) : vnaproperty_count(root, "%s", full.c_str()));
+	    if (c.no_retry && sim_alloc_fault_fired() && (t == -1) && e_ == ENOMEM) { c.count("probe.failed_by_fault_not_reissued"); return; }	// (a query that failed for lack of memory changed nothing)
 	    c.log(" -> %d", t);
 	    if (c.violated) return;
 	    int want = (n && n->k >= 2) ? (int)n->vals.size() : -1;
@@ -202,6 +219,7 @@ static void run_op(DocWorld &w, const Op &op)
 	    const char **kv = nullptr;
 	    std::vector<std::string> got;
 	    LIB_RETRY(c, &op, "vnaproperty_keys", e_, kv == nullptr, kv = ds.as_format ? vnaproperty_keys(root, full.c_str()) : vnaproperty_keys(root, "%s", full.c_str()); got.clear(); if (kv) for (const char **p = kv; *p; ++p) got.push_back(*p));
+	    if (c.no_retry && sim_alloc_fault_fired() && (kv == nullptr) && e_ == ENOMEM) { c.count("probe.failed_by_fault_not_reissued"); return; }	// (a query that failed for lack of memory changed nothing)
 	    free((void *)kv);
 	    c.log(" -> %s n=%zu", kv ? "vector" : "NULL", got.size());
 	    if (c.violated) return;
@@ -216,6 +234,7 @@ static void run_op(DocWorld &w, const Op &op)
 	    vnaproperty_t *sub = nullptr;
 	    // (a NULL result is also the legitimate answer for a null node: then errno stays 0 and nothing fired)
 	    LIB_RETRY(c, &op, "vnaproperty_get_subtree", e_, sub == nullptr, errno = 0; sub = ds.as_format ? vnaproperty_get_subtree(root, full.c_str()) : vnaproperty_get_subtree(root, "%s", full.c_str()));
+	    if (c.no_retry && sim_alloc_fault_fired() && (sub == nullptr) && e_ == ENOMEM) { c.count("probe.failed_by_fault_not_reissued"); return; }	// (a query that failed for lack of memory changed nothing)
 	    c.log(" -> %s", sub ? "node" : "NULL");
 	    if (c.violated) return;
 	    if (n) {
@@ -250,8 +269,8 @@ static void run_op(DocWorld &w, const Op &op)
 	int rc, e_ = 0;
 	LIB_RETRY(c, &op, "vnaproperty_copy", e_, rc != 0, rc = vnaproperty_copy(anchor, w.roots[si]));
 	c.log(" -> %d", rc);
-	(void)e_;
 	if (c.violated) return;
+	NO_RETRY_FAILED("vnaproperty_copy", rc != 0)
 	if (rc != 0) { c.violate("model", "copy:rc", "vnaproperty_copy failed"); return; }
 	*mdst = w.model[si];
 	compare_root(w, ri, op, "copy (destination)");
@@ -263,7 +282,7 @@ static void run_op(DocWorld &w, const Op &op)
 	const std::string &key = op.S(0);
 	if (key.empty()) return;
 	char *q;
-	{ int e_ = 0; LIB_RETRY(c, &op, "vnaproperty_quote_key", e_, q == nullptr, q = vnaproperty_quote_key(key.c_str())); (void)e_; }
+	{ int e_ = 0; LIB_RETRY(c, &op, "vnaproperty_quote_key", e_, q == nullptr, q = vnaproperty_quote_key(key.c_str())); if (c.no_retry && sim_alloc_fault_fired() && q == nullptr && e_ == ENOMEM) { c.count("probe.failed_by_fault_not_reissued"); return; } }
 	if (c.violated) return;
 	if (!q) { c.violate("model", "quote:rc", "quote_key returned NULL"); return; }
 	std::string qs = q;
